@@ -4,7 +4,7 @@
 mod __verif_kani {
     use super::*;
 
-    //@ kind=P props=C12 fn=line_break_len,is_line_break : for every 3-byte window, every slice length 0..=3 and every pos: width is 2 exactly for CR followed by LF inside the slice, 1 for a lone CR or LF, 0 otherwise or past the end; is_line_break is exactly {LF, CR}
+    //@ kind=B props=C12 bound=every_3-byte_window,slice_lengths_0..=3,every_pos fn=line_break_len,is_line_break : for every 3-byte window, every slice length 0..=3 and every pos: width is 2 exactly for CR followed by LF inside the slice, 1 for a lone CR or LF, 0 otherwise or past the end; is_line_break is exactly {LF, CR}
     #[kani::proof]
     pub fn c12_line_break_len() {
         let w: [u8; 3] = kani::any();
